@@ -48,7 +48,7 @@ def run(tier="quick"):
         holder.append(c)
         return c
     n, nund, samples = run_cap(chk, prog, [f], rule="B1", noreturn=NORETURN, strict=True, cap_factory=factory,
-                               kinds={"lower", "upper", "null", "count", "cursor", "freed"})
+                               kinds={"lower", "upper", "null", "count", "cursor", "freed", "uninit"})
     # progress obligations are reported under P1
     cp = holder[0]
     nloops = 0
